@@ -11,13 +11,14 @@
         NOT invisible to the faithful model: ParserUtils.parse_any_attribute expands every
         attribute value of the form "p:x" whose p happens to be a declared prefix, for Attributes
         fields and generic elements (`prefix_renaming_refuted`, finding C09-F3).
-   (b3) what IS proved for renaming, function level: a QName re-spelled consistently with the
-        renamed map resolves to the same name (`qname_respelling`, over property C05's model of
+   (b3) renaming, function level (this file): a QName re-spelled consistently with the renamed
+        map resolves to the same name (`qname_respelling`, over property C05's model of
         QNameConverter.resolve), hence the same xsi:type (`xsi_type_respelling`) and the same
-        value of a QName-typed text or attribute (`parse_value_respelling`); the event-level
-        statement (`prefix_renaming_partial`) is proved for documents without other prefixed
-        content by reduction to (b1) only in the special case where the renamed map stays
-        lookup-equivalent; the general event-level theorem is NOT proved (see the note). *)
+        value of a QName-typed text or attribute (`parse_value_respelling`).  The EVENT-LEVEL
+        renaming theorem (maps re-bound on a set P of prefixes, xsi:type values re-spelled, all
+        other values unchanged and free of the prefixes in P) is `prefix_renaming_invariant` in
+        Proofs/ParserCtx.v (generic simulation over related contexts); QName-typed TEXT may not be
+        re-spelled there (function level only). *)
 From Coq Require Import NArith ZArith List Bool.
 From XV Require Import Base.Str Base.Eqb Base.PyInt Model.Bind Model.Parser Model.Reader Model.ReaderCorr
   Proofs.ParserNs Proofs.ReaderMaps Proofs.ReaderAgree Proofs.ReaderConv Proofs.ReaderWitness Proofs.ReaderRefute
@@ -130,14 +131,7 @@ Proof.
   rewrite (qname_respelling po po' local m m' a b a' b'); try assumption. reflexivity.
 Qed.
 
-(* NOTE — the event-level renaming theorem is not proved.  Statement (for the record):
-     forall evs evs', Forall2 (renamed P) evs evs' -> parse cfg c u root evs = parse cfg c u root evs'
-   where `renamed P` lets the maps differ arbitrarily on the prefixes in P, requires the xsi:type
-   values to be re-spellings in the sense of `xsi_type_respelling`, and requires that no other
-   attribute value or text (nor a whitespace token of one) has a lexical prefix in P.  Missing:
-   the simulation of Proofs/ParserNs.v generalised from "maps related, values equal" to "contexts
-   (attributes + map) related, with a side condition on every text that reaches the converter";
-   the refutation above shows that the side condition cannot be dropped. *)
+(* the event-level renaming theorem: Proofs/ParserCtx.v (prefix_renaming_invariant) *)
 Print Assumptions prefix_maps_lookup_only.
 Print Assumptions prefix_renaming_refuted.
 Print Assumptions qname_respelling.
